@@ -550,22 +550,19 @@ inductive OpChar where
   | single (op : Op)                    -- `/` `*` `%` `^`
   | paren | bracket | other
 
+/-- the `case` labels of that `switch` -/
+def opTable : List (Nat × OpChar) :=
+  [(cOr, .two .or .bitOr cOr), (cAnd, .two .and .bitAnd cAnd),
+   (cGreater, .two .greaterOrEqual .greater cEq), (cLess, .two .lessOrEqual .less cEq),
+   (cNot, .two .notEqual .error cEq), (cEq, .two .equal .error cEq),
+   (cSub, .sign .sub), (cAdd, .sign .add),
+   (cDiv, .single .div), (cMul, .single .mul), (cRem, .single .rem), (cExp, .single .exp),
+   (cPOpen, .paren), (cBOpen, .bracket)]
+
 def classify (ch : Nat) : OpChar :=
-  if ch = cOr then .two .or .bitOr cOr
-  else if ch = cAnd then .two .and .bitAnd cAnd
-  else if ch = cGreater then .two .greaterOrEqual .greater cEq
-  else if ch = cLess then .two .lessOrEqual .less cEq
-  else if ch = cNot then .two .notEqual .error cEq
-  else if ch = cEq then .two .equal .error cEq
-  else if ch = cSub then .sign .sub
-  else if ch = cAdd then .sign .add
-  else if ch = cDiv then .single .div
-  else if ch = cMul then .single .mul
-  else if ch = cRem then .single .rem
-  else if ch = cExp then .single .exp
-  else if ch = cPOpen then .paren
-  else if ch = cBOpen then .bracket
-  else .other
+  match opTable.find? (fun p => p.1 == ch) with
+  | some p => p.2
+  | none => .other
 
 /-- `getOperation(content, offset, end_offset)` → (operation, new offset) -/
 def getOperation (c : List Nat) (endO : Nat) : Nat → Nat → Except Fault (Op × Nat)
@@ -624,7 +621,8 @@ def parseExpressions (cfg : ScanCfg R) (c : List Nat) : Nat → Nat → Nat → 
   | 0, _, _ => .error .fuel
   | f + 1, off, endO => parseLoop cfg c f endO off [] .noOp
 
-/-- the `while (offset < end_offset)` loop of `parseExpressions` -/
+/-- the `while (offset < end_offset)` loop of `parseExpressions` and the final test
+`(offset > end_offset) && (last_oper == NoOp)` (the second conjunct: notes/fix-expr-scan-dangling-operator.diff) -/
 def parseLoop (cfg : ScanCfg R) (c : List Nat) :
     Nat → Nat → Nat → List (Item R) → Op → Except Fault (List (Item R))
   | 0, _, _, _, _ => .error .fuel
@@ -638,7 +636,7 @@ def parseLoop (cfg : ScanCfg R) (c : List Nat) :
         | some exprs' =>
           let off' := opOff + 1 + (if oper.rank < Op.greater.rank then 1 else 0)
           parseLoop cfg c f endO off' exprs' oper
-    else if off > endO then .ok exprs else .ok []
+    else if off > endO ∧ lastOp = .noOp then .ok exprs else .ok []
 
 /-- `parseValue`; `none` = `false`, `some l` = the new `exprs`. -/
 def parseValue (cfg : ScanCfg R) (c : List Nat) :
